@@ -206,6 +206,9 @@ class Attribute(_BaseAttribute):
     def __getitem__(self, key):
         if key in self._data:
             return self._data[key]
+        if self.elemsize>1:
+            # a fresh vector for every read: in-place updates of the result must not leak into the other unset entries
+            return Vec(np.full(self.elemsize, self.default_value, dtype=self.type.dtype))
         return self.default_value
 
     def __setitem__(self, key, value):
